@@ -257,6 +257,10 @@ impl AsLockedWrite for crate::Buffer {
     }
 }
 
+#[cfg(feature = "verif-hooks")]
+#[doc(hidden)]
+pub use private::Sealed as VerifSealed;
+
 mod private {
     pub trait Sealed {}
 
